@@ -694,7 +694,7 @@ def run(ctx: vf.Ctx):
                       'RuntimeError: Unable to process all pending bins during partitioning.',
                       'QuickPartitioner deadlocks: blocked qudits are not propagated when a BarrierBin is created')
     cases = make_cases(ctx)
-    nproc = min(14, os.cpu_count() or 4)
+    nproc = min(int(os.environ.get('VERIF_NPROC', '14')), os.cpu_count() or 4)
     chunks = [[] for _ in range(nproc * 6)]
     # spread by cost
     order = sorted(range(len(cases)), key=lambda i: -len(cases[i][1]['ops']) * len(cases[i][4]))
